@@ -390,7 +390,19 @@ func FnName(f *ssa.Function) string {
 }
 
 // RepoFns returns all repository functions with bodies, sorted.
-func (p *Prog) RepoFns(shorts ...string) []*ssa.Function {
+func (p *Prog) RepoFns(shorts ...string) []*ssa.Function { return p.repoFns(false, shorts...) }
+
+// RepoFnsWithWrappers additionally returns the synthetic wrappers (promoted
+// methods, bound methods, thunks) so that interprocedural facts flow through them.
+func (p *Prog) RepoFnsWithWrappers(shorts ...string) []*ssa.Function {
+	return p.repoFns(true, shorts...)
+}
+
+func isWrapper(f *ssa.Function) bool {
+	return f.Synthetic != "" && !strings.HasPrefix(f.Synthetic, "instance of")
+}
+
+func (p *Prog) repoFns(wrappers bool, shorts ...string) []*ssa.Function {
 	var r []*ssa.Function
 	for f := range p.AllFns {
 		if f.Blocks == nil {
@@ -399,7 +411,7 @@ func (p *Prog) RepoFns(shorts ...string) []*ssa.Function {
 		if isUninstantiated(f) {
 			continue // generic bodies are analysed through their instantiations
 		}
-		if f.Synthetic != "" && !strings.HasPrefix(f.Synthetic, "instance of") {
+		if isWrapper(f) && (!wrappers || strings.HasPrefix(f.Synthetic, "package init")) {
 			continue // wrappers, thunks, package initialisers: no source of their own
 		}
 		pp := fnPkgPath(f)
